@@ -1,6 +1,8 @@
 (* The release tagger: tools/cmd/tag.go (Tagger.Tag, largestTagSemver, createTag) with the
-   dry-run flag bound to the viper instance that is unmarshalled (fixes/c20-dry-run.diff)
-   and tags identified by their ref name (fixes/c20-tag-ref-name.diff).
+   dry-run flag bound to the viper instance that is unmarshalled (fixes/c20-dry-run.diff),
+   tags identified by their ref name (fixes/c20-tag-ref-name.diff) and the tag refs written
+   directly, without go-git's DeleteTag (fixes/c20-packed-refs.diff: refs are a map from names
+   to targets here; the damage DeleteTag does to .git/packed-refs has no counterpart).
    Model only; proofs are in Misc/Tag_proofs.v.
 
    A repository is seen as its list of refs (the order of the list is the order in which
@@ -71,11 +73,11 @@ Fixpoint has_suffix_rev (rs rsuf : str) : bool :=      (* both reversed *)
   | _ :: _, [] => false
   end.
 Definition has_suffix (s suf : str) : bool := has_suffix_rev (rev s) (rev suf).
-(* ReferenceName.Validate in Repository.CreateTag: the only rule a name "v" ++ String()
-   can break is "no component ends with .lock" *)
+(* ReferenceName.Validate: the only rule a name "v" ++ String() can break is
+   "no component ends with .lock" *)
 Definition ref_name_ok (short : str) : bool := negb (has_suffix short (B ".lock")).
 
-(* DeleteTag (error ignored) followed by CreateTag with options: an annotated tag at [h] *)
+(* the tag object is stored and the ref written (created or moved): an annotated tag at [h] *)
 Definition create (rs : list ref) (short : str) (h : nat) : list ref :=
   filter (fun r => negb (seqb (r_name r) (tag_ref short))) rs
   ++ [{| r_name := tag_ref short; r_kind := Annot short; r_target := h |}].
